@@ -187,7 +187,7 @@ func (t *twalk) decode(b *buffer) {
 	t.newFID = b.ReadFID()
 	n := b.Read16()
 	t.Names = t.Names[:0]
-	for i := 0; i < int(n); i++ {
+	for i := 0; i < int(n) && !b.isOverrun(); i++ {
 		t.Names = append(t.Names, b.ReadString())
 	}
 }
@@ -222,7 +222,7 @@ type rwalk struct {
 func (r *rwalk) decode(b *buffer) {
 	n := b.Read16()
 	r.QIDs = r.QIDs[:0]
-	for i := 0; i < int(n); i++ {
+	for i := 0; i < int(n) && !b.isOverrun(); i++ {
 		var q QID
 		q.decode(b)
 		r.QIDs = append(r.QIDs, q)
@@ -1793,7 +1793,7 @@ func (t *twalkgetattr) decode(b *buffer) {
 	t.newFID = b.ReadFID()
 	n := b.Read16()
 	t.Names = t.Names[:0]
-	for i := 0; i < int(n); i++ {
+	for i := 0; i < int(n) && !b.isOverrun(); i++ {
 		t.Names = append(t.Names, b.ReadString())
 	}
 }
@@ -1836,7 +1836,7 @@ func (r *rwalkgetattr) decode(b *buffer) {
 	r.Attr.decode(b)
 	n := b.Read16()
 	r.QIDs = r.QIDs[:0]
-	for i := 0; i < int(n); i++ {
+	for i := 0; i < int(n) && !b.isOverrun(); i++ {
 		var q QID
 		q.decode(b)
 		r.QIDs = append(r.QIDs, q)
